@@ -30,6 +30,12 @@ class RecStore(dict):
 
     def __setitem__(self, k, v):
         self.w.add(k)
+        # magnitude guard: engines without a reference model must not let values explode (Python
+        # integers are unbounded: x <- x**3 over many steps never finishes)
+        if isinstance(v, (int, float, np.integer, np.floating)) and not isinstance(v, (bool, np.bool_)):
+            if not abs(v) < 1e30:
+                from simdag.core.outcome import Discard
+                raise Discard("ill-defined:magnitude")
         dict.__setitem__(self, k, v)
 
     def __delitem__(self, k):
